@@ -129,6 +129,46 @@ def tlc_check(scratch, spec, cfg, timeout_s, workers=None, extra=()):
     return info
 
 
+FATAL_MARKS = ("fatal error:", "goroutine stack exceeds", "concurrent map")
+
+
+def crash_violation(scratch, harness, family, summ, hout):
+    """the lines that were being replayed when a harness process died: each is re-executed alone in a fresh process; one that dies
+    again with a fatal runtime error is returned as a one-mismatch summary (sig crash:<family>), else None."""
+    import glob, struct
+    if not any(m in hout for m in FATAL_MARKS):
+        return None
+    cands = []
+    for f in sorted(glob.glob(summ + ".cur*")):
+        try:
+            b = open(f, "rb").read()
+            n = struct.unpack("<Q", b[:8])[0]
+            line = b[8:8 + n].decode("utf-8")
+            case = json.loads(line)
+        except Exception:
+            continue
+        finally:
+            try:
+                os.remove(f)
+            except OSError:
+                pass
+        if case not in cands:
+            cands.append(case)
+    for i, case in enumerate(cands[:64]):
+        path = os.path.join(scratch, "crash-candidate-%d.json" % i)
+        json.dump({"family": family, "sig": "crash:" + family, "case": case}, open(path, "w"))
+        try:
+            r = subprocess.run([harness, "one", path], stdout=subprocess.PIPE, stderr=subprocess.STDOUT, text=True, timeout=300)
+        except subprocess.TimeoutExpired:
+            continue
+        if r.returncode not in (0, 1) and any(m in r.stdout for m in FATAL_MARKS):
+            head = "\n".join(l for l in r.stdout.splitlines() if "clbanning/mxj" in l or l.startswith("fatal error") or "stack overflow" in l)[:1500]
+            mm = {"sig": "crash:" + family, "case": case, "noreplay": True,
+                  "detail": "replaying this line kills the process with a fatal runtime error (not a recoverable panic), again when it is replayed alone in a fresh process:\n" + head}
+            return {"lines": 1, "cases": 1, "distinct_nontrivial": 1, "mismatch_count": 1, "mismatches": [mm], "sig_counts": {mm["sig"]: 1}}
+    return None
+
+
 def tlc_gen_replay(scratch, harness, family, spec, cfg, timeout_s, workers=None, jobs=None, extra=(), procs=None, race=False):
     """spec -> code: TLC prints behaviours, the harness replays them. Returns (tlcinfo, summary)."""
     sd = prepare_spec_dir(scratch)
@@ -158,6 +198,13 @@ def tlc_gen_replay(scratch, harness, family, spec, cfg, timeout_s, workers=None,
     info["cmd"] = "tlc -config %s %s | mxjconf replay %s" % (cfg, spec, family)
     if rc1 == 124:
         raise MachineryError("TLC timed out after %ds on %s/%s" % (timeout_s, spec, cfg))
+    if p2.returncode != 0:
+        # did a replay process die of a FATAL runtime error inside the package (stack overflow, concurrent map writes)?  every worker
+        # keeps the line it is replaying in a file; a line that kills a fresh process again is a violation, not a machinery error
+        crash = crash_violation(scratch, harness, family, summ, hout)
+        if crash is not None:
+            info["ok"] = True
+            return info, crash
     if p2.returncode != 0 and not os.path.exists(summ):
         # the harness process died (TLC then dies of the closed pipe, its log is incomplete)
         raise MachineryError("replay harness for %s crashed (rc=%s): %s" % (family, p2.returncode, hout[-3000:]))
